@@ -123,6 +123,8 @@ Definition qnormalize (q : quat (T:=T)) : quat (T:=T) :=
   qscale O (o_div O (fz 1) (o_sqrt O (qnorm2 O q))) q.
 (* Rotation.to_euler(): qu2eu(self.unit.data); the improper flag is not consulted *)
 Definition to_euler (r : rotation) : vec3 (T:=T) := qu2eu O (qnormalize (fst r)).
+(* what the reader rebuilds from the stored Euler angles and improper flag *)
+Definition reload_rot (r : rotation) : rotation := (eu2qu O (to_euler r), snd r).
 
 Definition count_true (l : list bool) : nat := List.length (filter (fun b => b) l).
 Definition per_point (m : cmap) : nat := match m_rsh m with [_; k] => k | _ => 1%nat end.
@@ -169,7 +171,8 @@ Definition phaselist2dict (l : list (Z * phase)) : pv T :=
   PD (dict_update [] (map (fun ip => (zstr (fst ip), phase2dict (snd ip))) l)).
 
 Definition zrange (n : nat) : list Z := map Z.of_nat (seq 0 n).
-Definition reserved : list string := ["y"; "x"; "phi1"; "Phi"; "phi2"; "phase_id"; "id"; "is_in_data"]%string.
+Definition reserved : list string :=
+  ["y"; "x"; "phi1"; "Phi"; "phi2"; "improper"; "phase_id"; "id"; "is_in_data"]%string.
 
 (* None = the writer raises (ZeroDivisionError in rotations_per_point when no
    point is in the data) *)
@@ -185,6 +188,7 @@ Definition crystalmap2dict (m : cmap) : option (pv T) :=
         ("phi1", PA (mkArr f64 (m_rsh m) (DF (map (fun e => fst (fst e)) eus))));
         ("Phi", PA (mkArr f64 (m_rsh m) (DF (map (fun e => snd (fst e)) eus))));
         ("phi2", PA (mkArr f64 (m_rsh m) (DF (map (fun e => snd e) eus))));
+        ("improper", PA (mkArr b8 (m_rsh m) (DB (map snd (m_rots m)))));
         ("phase_id", PA (mkArr i64 [n] (DI (m_pid m))));
         ("id", PA (mkArr i64 [n] (DI (zrange n))));
         ("is_in_data", PA (mkArr b8 [n] (DB (m_ind m))))]
@@ -228,11 +232,24 @@ Fixpoint all_some {A} (l : list (option A)) : option (list A) :=
   | Some x :: r => match all_some r with Some r' => Some (x :: r') | None => None end
   | None :: _ => None
   end.
+(* sorted association lists keyed by an integer (PhaseList keeps its dict sorted
+   by phase id; dict2structure sorts the atom keys with key=int; both sorts are stable) *)
+Fixpoint zinsert {A} (kv : Z * A) (l : list (Z * A)) : list (Z * A) :=
+  match l with
+  | [] => [kv]
+  | kv' :: r => if fst kv <=? fst kv' then kv :: l else kv' :: zinsert kv r
+  end.
+Fixpoint sortz {A} (l : list (Z * A)) : list (Z * A) :=
+  match l with [] => [] | kv :: r => zinsert kv (sortz r) end.
+
+(* atoms=[dict2atom(atoms[key]) for key in sorted(atoms, key=int)] *)
 Definition dict2structure (v : dict (rv T)) : option structure :=
   match getD v "lattice", getD v "atoms" with
   | Some ld, Some ad =>
-      match getA ld "abcABG", getA ld "baserot", all_some (map (fun kv => dict2atom (snd kv)) ad) with
-      | Some p, Some b, Some ats => Some (mkLat p b, ats)
+      match getA ld "abcABG", getA ld "baserot",
+            all_some (map (fun kv => match zint (fst kv), dict2atom (snd kv) with
+                                     | Some i, Some a => Some (i, a) | _, _ => None end) ad) with
+      | Some p, Some b, Some ats => Some (mkLat p b, map snd (sortz ats))
       | _, _, _ => None
       end
   | _, _ => None
@@ -247,7 +264,7 @@ Definition dict2phase (v : rv T) : option phase :=
               let pg : option pystr := if pstr_eqb pgv (s2p "None") then None else Some pgv in
               match sgv with
               | RS s => if pstr_eqb s (s2p "None") then mk_phase name None pg st col else None
-              | RI z => mk_phase name (Some z) pg st col
+              | RI z => mk_phase name (Some z) None st col   (* the space group determines the point group *)
               | _ => None
               end
           | None => None
@@ -257,14 +274,6 @@ Definition dict2phase (v : rv T) : option phase :=
   | _ => None
   end.
 
-(* sorted association lists keyed by phase id (PhaseList keeps its dict sorted) *)
-Fixpoint zinsert {A} (kv : Z * A) (l : list (Z * A)) : list (Z * A) :=
-  match l with
-  | [] => [kv]
-  | kv' :: r => if fst kv <=? fst kv' then kv :: l else kv' :: zinsert kv r
-  end.
-Fixpoint sortz {A} (l : list (Z * A)) : list (Z * A) :=
-  match l with [] => [] | kv :: r => zinsert kv (sortz r) end.
 Definition zlookup {A} (k : Z) (l : list (Z * A)) : option A :=
   match find (fun kv => fst kv =? k) l with Some kv => Some (snd kv) | None => None end.
 Definition zremove {A} (k : Z) (l : list (Z * A)) : list (Z * A) :=
@@ -329,18 +338,35 @@ Definition mk_cmap (rsh : list nat) (rots : list rotation) (pid : list Z) (x y :
       Some (mkMap rsh rots pid x' y ind props unit pl3)
   end.
 
-(* Rotation.from_euler(np.dstack((phi1, Phi, phi2)).squeeze()) *)
+(* Rotation.from_euler(np.stack((phi1, Phi, phi2), axis=-1)); rotations.improper = improper *)
 Fixpoint shape_eqb' (a b : list nat) : bool :=
   match a, b with
   | [], [] => true
   | x :: a', y :: b' => (x =? y)%nat && shape_eqb' a' b'
   | _, _ => false
   end.
-Definition squeeze (sh : list nat) : list nat := filter (fun d => negb (d =? 1)%nat) sh.
 Fixpoint zip3 (a b c : list T) : list (vec3 (T:=T)) :=
   match a, b, c with
   | x :: a', y :: b', z :: c' => (x, y, z) :: zip3 a' b' c'
   | _, _, _ => []
+  end.
+(* the "improper" dataset: absent in files of earlier versions (all proper);
+   None = the assignment to Rotation.improper raises (shape mismatch) *)
+Definition get_improper (data : dict (rv T)) (sh : list nat) (n : nat) : option (list bool) :=
+  match lookup "improper"%string data with
+  | None => Some (repeat false n)
+  | Some (RA a) => match a_d a with
+                   | DB l => if shape_eqb' (a_sh a) sh then Some l else None
+                   | _ => None
+                   end
+  | Some _ => None
+  end.
+(* header.get("scan_unit"): absent (None was not written) = None *)
+Definition get_unit (header : dict (rv T)) : option (option pystr) :=
+  match lookup "scan_unit"%string header with
+  | None => Some None
+  | Some (RS s) => Some (Some s)
+  | Some _ => None
   end.
 
 Definition dict2crystalmap (v : rv T) : option cmap :=
@@ -352,12 +378,12 @@ Definition dict2crystalmap (v : rv T) : option cmap :=
       | Some a1, Some a2, Some a3 =>
         match a_d a1, a_d a2, a_d a3 with
         | DF e1, DF e2, DF e3 =>
-          (* np.dstack raises ValueError unless the three arrays have one shape *)
+          (* np.stack raises ValueError unless the three arrays have one shape *)
           if negb (shape_eqb' (a_sh a1) (a_sh a2) && shape_eqb' (a_sh a1) (a_sh a3)) then None else
-          let rsh := squeeze (a_sh a1) in
-          let rots := map (fun e => (eu2qu O e, false)) (zip3 e1 e2 e3) in
-          match getS header "scan_unit", getD header "phases" with
-          | Some unit, Some phd =>
+          let rsh := a_sh a1 in
+          match get_improper data rsh (List.length e1), get_unit header, getD header "phases" with
+          | Some imp, Some unit, Some phd =>
+            let rots := combine (map (eu2qu O) (zip3 e1 e2 e3)) imp in
             match dict2phaselist phd, getA data "phase_id", getA data "is_in_data" with
             | Some pl, Some pa, Some ia =>
               match a_d pa, a_d ia with
@@ -365,14 +391,14 @@ Definition dict2crystalmap (v : rv T) : option cmap :=
                 let coord (k : string) : option (arr T) := getA data k in
                 match all_some (map (fun kv => match snd kv with RA a => Some (fst kv, a) | _ => None end)
                                     (remove_keys reserved data)) with
-                | Some props => mk_cmap rsh rots pid (coord "x"%string) (coord "y"%string) pl props (Some unit) ind
+                | Some props => mk_cmap rsh rots pid (coord "x"%string) (coord "y"%string) pl props unit ind
                 | None => None
                 end
               | _, _ => None
               end
             | _, _, _ => None
             end
-          | _, _ => None
+          | _, _, _ => None
           end
         | _, _, _ => None
         end
